@@ -2,10 +2,14 @@
 //  shape shared  : one engine constructed first; T threads compute concurrently on it
 //  shape private : T threads each construct their own engine (concurrently) and compute with it
 //  shape mixed   : one engine constructed first; thread 0 computes on it while the others construct and use private engines
+//  shape copies  : an ECPIntegrator is set up and initialised for integrals, then copied once per thread (the copies share the engine
+//                  through the shared_ptr); thread 0 calls init(2) on ITS copy and computes integrals and derivatives with it while the
+//                  others compute integrals on theirs (in the model: thread 0 constructs a private engine, the others use the shared one)
 //  shape grow    : as mixed, but the private engines are constructed with LARGER limits (angular momentum, ECP momentum) than the
 //                  engine already in use, so that anything sized by the largest request so far would be rebuilt under the reader
 // Results of every call are written (hex) so that a serial run can be compared bitwise.
 #include "vh.hpp"
+#include "api.hpp"
 #include <thread>
 #include <atomic>
 #include <memory>
@@ -37,6 +41,40 @@ int main(int argc, char** argv) {
   for (auto& e : c.ecps) { w.ecps.push_back(make_ecp(e)); w.maxlu = std::max(w.maxlu, w.ecps.back().getL()); }
   std::vector<std::vector<double>> res(T);
   std::vector<std::thread> th;
+  if (shape == "copies" || shape == "copies-serial") {
+    // the high-level object
+    std::vector<double> coords, exps, coefs; std::vector<int> ams, lens;
+    for (auto& s : c.shells) { coords.insert(coords.end(), s.c.begin(), s.c.end()); ams.push_back(std::min(s.l, LIBECPINT_MAX_L - 2)); lens.push_back((int)s.e.size());
+      exps.insert(exps.end(), s.e.begin(), s.e.end()); coefs.insert(coefs.end(), s.d.begin(), s.d.end()); }
+    std::vector<double> ec, ee, ed; std::vector<int> el, en, elen;
+    for (auto& u : c.ecps) { ec.insert(ec.end(), u.c.begin(), u.c.end()); elen.push_back((int)u.p.size());
+      for (auto& p : u.p) { ee.push_back(p.a); ed.push_back(p.d); el.push_back(p.l); en.push_back(p.n); } }
+    ECPIntegrator master;
+    master.set_gaussian_basis((int)c.shells.size(), coords.data(), exps.data(), coefs.data(), ams.data(), lens.data());
+    master.set_ecp_basis((int)c.ecps.size(), ec.data(), ee.data(), ed.data(), el.data(), en.data(), elen.data());
+    master.init(0);
+    std::vector<ECPIntegrator> copies(T, master);
+    auto work = [&](int t) {
+      ECPIntegrator& I = copies[t];
+      for (int r = 0; r < reps; r++) {
+        if (t == 0 && r == 0) I.init(2);
+        I.compute_integrals();
+        res[t].insert(res[t].end(), I.integrals.data.begin(), I.integrals.data.end());
+        if (t == 0) { I.compute_first_derivs(); for (auto& m : I.first_derivs) res[t].insert(res[t].end(), m.data.begin(), m.data.end()); }
+      }
+    };
+    if (shape == "copies-serial") { for (int t = 0; t < T; t++) work(t); }
+    else {
+      for (int t = 0; t < T; t++) th.emplace_back([&, t]() { gate.fetch_add(1); while (gate.load() < T) { } work(t); });
+      for (auto& x : th) x.join();
+    }
+    FILE* f = std::fopen(argv[5], "w");
+    for (int t = 0; t < T; t++) { std::fprintf(f, "thread %d %zu", t, res[t].size()); unsigned long long h = 1469598103934665603ULL;
+      for (double d : res[t]) { unsigned long long b; std::memcpy(&b, &d, 8); h = (h ^ b) * 1099511628211ULL; }
+      std::fprintf(f, " %llx\n", h); }
+    std::fclose(f);
+    return 0;
+  }
   std::unique_ptr<ECPIntegral> shared;
   if (shape == "shared" || shape == "mixed" || shape == "grow" || shape == "serial") shared.reset(new ECPIntegral(w.maxl, w.maxlu, 2));
   if (shape == "serial") {
